@@ -1318,6 +1318,100 @@ pub fn c17(ctx: &mut Ctx) -> (u64, String) {
         ctx.evaluations += n;
         ctx.part("replay:X, Y, change_layout, X over all 10x10 pairs, both wrapper forms", json!({"histories_checked": n}));
     }
+    // decoder-level differential over the REAL layout types (not the harness's `Wrap`): EventDecoder<L>,
+    // EventDecoder<AnyLayout::L> and EventDecoder<&AnyLayout::L> must answer every history identically - this also
+    // covers anything the decoder asks the layout besides map_keycode (e.g. a future provided trait method that one
+    // of the two wrapper impls forgets to forward)
+    {
+        use pc_keyboard::layouts::*;
+        let mut modev: Vec<(KeyCode, KeyState)> = vec![];
+        for k in ALL_KEYS {
+            if is_modifier_key(k) {
+                modev.push((k, KeyState::Down));
+                modev.push((k, KeyState::Up));
+            }
+        }
+        let depth = if ctx.thorough() { 3 } else { 2 };
+        let mut hists: Vec<Vec<(KeyCode, KeyState)>> = vec![vec![]];
+        let mut frontier: Vec<Vec<(KeyCode, KeyState)>> = vec![vec![]];
+        for _ in 0..depth {
+            let mut next = vec![];
+            for h in &frontier {
+                for e in &modev {
+                    let mut h2 = h.clone();
+                    h2.push(*e);
+                    next.push(h2);
+                }
+            }
+            hists.extend(next.iter().cloned());
+            frontier = next;
+        }
+        let plain: Vec<KeyCode> = ALL_KEYS.iter().copied().filter(|k| !is_modifier_key(*k)).collect();
+        fn run_hist<L: pc_keyboard::KeyboardLayout>(layout: L, mode: HandleControl, h: &[(KeyCode, KeyState)], k: KeyCode) -> Result<Option<DecodedKey>, String> {
+            guarded(|| {
+                let mut d = EventDecoder::new(layout, mode);
+                for (mk, ms) in h {
+                    let _ = d.process_keyevent(KeyEvent::new(*mk, *ms));
+                }
+                d.process_keyevent(KeyEvent::new(k, KeyState::Down))
+            })
+        }
+        let results = par_chunks(N_LAYOUTS, |l| {
+            let mut n = 0u64;
+            let mut bads = vec![];
+            for mode in MODES {
+                for h in &hists {
+                    for k in &plain {
+                        macro_rules! tri {
+                            ($t:expr) => {{
+                                (run_hist($t, mode, h, *k), run_hist(any_of(l), mode, h, *k), run_hist(any_static(l), mode, h, *k))
+                            }};
+                        }
+                        let (direct, byval, byref) = match l {
+                            0 => tri!(Us104Key),
+                            1 => tri!(Uk105Key),
+                            2 => tri!(De105Key),
+                            3 => tri!(Azerty),
+                            4 => tri!(No105Key),
+                            5 => tri!(FiSe105Key),
+                            6 => tri!(Jis109Key),
+                            7 => tri!(Colemak),
+                            8 => tri!(Dvorak104Key),
+                            _ => tri!(DVP104Key),
+                        };
+                        n += 2;
+                        for (form, got) in [("any", &byval), ("anyref", &byref)] {
+                            if *got != direct && bads.len() < 6 {
+                                let f = |r: &Result<Option<DecodedKey>, String>| match r {
+                                    Ok(v) => crate::replay::fmt_dk(v),
+                                    Err(p) => p.clone(),
+                                };
+                                bads.push((l, form, mode, h.clone(), *k, f(&direct), f(got)));
+                            }
+                        }
+                    }
+                }
+            }
+            (n, bads)
+        });
+        let mut n = 0;
+        for (c, bads) in results {
+            n += c;
+            for (l, form, mode, h, k, want, got) in bads {
+                let comp = format!("ed:{}-{}:{}", form, LAYOUT_NAMES[l], mode_name(mode));
+                let mut ops: Vec<Op> = h.iter().map(|(k, s)| Op::Key(*k, *s)).collect();
+                ops.push(Op::Key(k, KeyState::Down));
+                let ht: Vec<String> = h.iter().map(|(k, s)| format!("{:?} {:?}", k, s)).collect();
+                ctx.violation(
+                    &format!("{}:{}/{}/decoder-differs-from-wrapped", form, LAYOUT_NAMES[l], key_name(k)),
+                    &format!("EventDecoder over {} holding {} (mode {}): after [{}], pressing {:?} gives {} but an EventDecoder over the wrapped layout type itself gives {}", if form == "any" { "AnyLayout" } else { "&AnyLayout" }, LAYOUT_NAMES[l], mode_name(mode), ht.join(", "), k, got, want),
+                    Replay::one(&comp, ops, &want, Some(got)),
+                );
+            }
+        }
+        ctx.evaluations += n;
+        ctx.part("replay:EventDecoder<L> vs EventDecoder<AnyLayout> vs EventDecoder<&AnyLayout> over modifier histories (real layout types)", json!({"history_depth": depth, "histories": hists.len(), "keys": plain.len(), "modes": 2, "comparisons": n}));
+    }
     ctx.sample_run("layout:anyref:azerty", &["map:Q:16:Map"]);
     ctx.sample_run("layout:direct:azerty", &["map:Q:16:Map"]);
     ctx.sample_run("ed:anyref-no105:Map", &["key:Oem1:Down", "layout:5", "key:Oem1:Down"]);
